@@ -8,7 +8,7 @@ from typing import Any, Dict, List, Optional, Set, Tuple
 
 from .absint import Const, NumV, Obj, Operand, Seq, StrV, Tmpl, Union, Unknown, V, alts_of, interp
 from .core import AnalysisError, Ctx, rule
-from .pyast import pyfacts, unparse
+from .pyast import ast_contains, pyfacts, unparse
 from .rules_abs import _renderings, rule_values, walk
 
 ELEMENTS_REL = "coco/b09/elements.py"
@@ -285,7 +285,7 @@ def e7(ctx: Ctx):
     ok10 = lits == [10]
     ctx.ob("implicit-bound", ok10, "" if ok10 else f"undeclared arrays are created with source bound {lits}; Color BASIC gives them 0..10", file="coco/b09/visitors.py", line=dv.lineno)
     src = unparse(dv)
-    okp = "var[4:]" in src and "is_str_expr=var.endswith('$')" in src
+    okp = ast_contains(dv, "BasicVar($v[4:], is_str_expr=$v.endswith('$'))")
     ctx.ob("implicit-name", okp, "" if okp else "implicit DIM does not rebuild the variable from the emitted name (`arr_` stripped, `$` kept)", file="coco/b09/visitors.py", line=dv.lineno)
     okiv = "initialize_vars=self._initialize_vars" in src
     ctx.ob("implicit-initialise", okiv, "" if okiv else "implicit DIM statements do not receive the initialise-variables option", file="coco/b09/visitors.py", line=dv.lineno)
@@ -305,7 +305,7 @@ def e7(ctx: Ctx):
     vi = py.cls("VarInitializerVisitor").properties.get("assignment_lines")
     ctx.need(vi is not None, "VarInitializerVisitor.assignment_lines", "not found")
     s2 = unparse(vi)
-    okz = "'' if var.endswith('$') else 0.0" in s2
+    okz = ast_contains(vi, "'' if $v.endswith('$') else 0.0")
     ctx.ob("scalar-init-values", okz, "" if okz else "pre-initialisation no longer assigns \"\" to strings and 0.0 to numbers", file="coco/b09/visitors.py", line=vi.lineno, props=["C03"])
-    okf = "len(var) <= 3" in s2 and "len(var) <= 2" in s2
+    okf = ast_contains(vi, "$v.endswith('$') and len($v) <= 3 or len($v) <= 2")
     ctx.ob("scalar-init-filter", okf, "" if okf else "the filter that keeps generated names (arr_*, tmp_*, display...) out of the pre-initialisation changed", file="coco/b09/visitors.py", line=vi.lineno, props=["C03"])
